@@ -23,6 +23,8 @@ def run(chk, tier):
         spec_group.check_bases(chk, lib, limit=6)
         # cursor_range / cursor_subrange of flat and nested groups (start entry, length = n - pos / count, asserts)
         spec_group.check_groups(chk, lib, limit=6)
+    # the configuration without size checks has its own copies of the cursor_range / iterator code (#else branches)
+    spec_group.check_iterators(chk, lib_for("vlayout", "c++17", asserts=False), limit=4)
     import e4
     import gtab
     import gen
